@@ -9,6 +9,14 @@ HERE = os.path.dirname(os.path.dirname(os.path.abspath(__file__)))
 BASELINE = "cd /repo && /venv/bin/python -m pytest -ra -q -p no:cacheprovider --timeout=900 --continue-on-collection-errors"
 
 CHECKS = {
+    "C10": dict(
+        level="exploration",
+        technique="exhaustive enumeration: full products of convention tables, complete small hyperoctahedral groups and bounded Cayley-graph BFS, on the real conversion functions",
+        text="Every ordered pair of the 10 built-in tables on every shared shell type, the complete groups of (1,c) [48] and (2,p) [3840] conventions, Cayley balls of depth 2/3 around every "
+        "built-in entry, every single-label corruption, and all shell sequences <=3 x convention triples are converted by the real code and compared with a signed permutation read off the labels.",
+        note="label parser and reference permutation are independent of iodata.convert; exact comparison on vectors of distinct floats",
+        design="DESIGN.md §2 C10",
+    ),
     "C11": dict(
         level="model_checking",
         technique="explicit-state BFS over operation histories on the real IOData class (ESB), invariants + differential read oracle",
